@@ -626,6 +626,28 @@ def run_tree(tr, cmds):
             out.append('%d.orig=%s' % (k, hexr(n)))
         elif op == 'summ':
             out.append('%d.summ=%s' % (k, EC(lambda: node_str(n.summarize_into(int(c[1]))()))))
+        elif op in ('vget', 'vset'):
+            import pyimpl_partial
+            try:
+                store = pyimpl_partial.Store(n)
+                vroot = store.node(bytes(n.merkle_root()))
+            except Exception as e:
+                out.append('%d.%s=import-err:%s' % (k, op, type(e).__name__))
+                continue
+            if op == 'vget':
+                out.append('%d.vget=%s' % (k, EC(lambda: node_str(vroot.getter(int(c[1]))))))
+            else:
+                g, e, v = int(c[1]), int(c[2]) != 0, mk_tree(c[3])
+                probes = [int(q) for q in c[4:]]
+                try:
+                    link = vroot.setter(g, expand=e) if e else vroot.setter(g)
+                    r = link(v)
+                    out.append('%d.vset=%s' % (k, hexr(r)))
+                    out.append('%d.vprobes=%s' % (k, ','.join(EC(lambda: hexr(r.getter(q))) for q in probes)))
+                except NavigationError:
+                    out.append('%d.vset=err:nav' % k)
+                except Exception:
+                    out.append('%d.vset=err' % k)
         elif op == 'diff':
             b = mk_tree(c[1])
             out.append('%d.diff=%s' % (k, E(lambda: ','.join(node_str(x) + '/' + node_str(y) for x, y in get_diff(n, b)))))
